@@ -442,28 +442,34 @@ type Replay struct {
 	Path []string `json:"path"`
 }
 
+// die reports broken machinery (exit 2) after removing the scratch files.
+func die(format string, a ...any) {
+	probe.Cleanup()
+	common.Broken(format, a...)
+}
+
 func replay(file string) {
 	b, err := os.ReadFile(file)
 	if err != nil {
-		common.Broken("replay: %v", err)
+		die("replay: %v", err)
 	}
 	var w struct {
 		Replay Replay `json:"replay"`
 	}
 	if err := json.Unmarshal(b, &w); err != nil || len(w.Replay.Tree.Bodies) != 6 {
-		common.Broken("replay file %s has no usable replay section (%v)", file, err)
+		die("replay file %s has no usable replay section (%v)", file, err)
 	}
 	spec := w.Replay.Tree
 	fmt.Printf("tree: %v\npath: %v\n", spec, w.Replay.Path)
 	st, err := buildInitial(spec)
 	if err != nil {
-		common.Broken("replay: %v", err)
+		die("replay: %v", err)
 	}
 	for i, evn := range w.Replay.Path {
 		if evn == "regen" {
 			post, cs, os_, err := regenerate(spec, st, true)
 			if err != nil {
-				common.Broken("replay: %v", err)
+				die("replay: %v", err)
 			}
 			fmt.Printf("step %d regen: %d surviving methods compared, %d other declarations, %d import requirements, masked=%d, compile clause evaluated=%v, complaints=%d\n", i, os_.Methods, os_.Decls, os_.Imports, os_.Masked, os_.Compiled, len(cs))
 			for _, c := range cs {
@@ -482,11 +488,11 @@ func replay(file string) {
 		}
 		ev := eventByName(evn)
 		if ev == nil {
-			common.Broken("replay: unknown event %q", evn)
+			die("replay: unknown event %q", evn)
 		}
 		ns, ok := ev.Apply(st.Cur)
 		if !ok {
-			common.Broken("replay: event %q not enabled", evn)
+			die("replay: event %q not enabled", evn)
 		}
 		st = &State{Layout: st.Layout, Cur: ns, Gen: st.Gen, Go: st.Go, Compiles: st.Compiles}
 		fmt.Printf("step %d %s\n", i, evn)
